@@ -207,6 +207,7 @@ func specReplOK(r replacement, n int) bool { return 0 <= r.start && r.start < r.
 
 //@ func linkDestinationReplacer.scanInlineLinks
 //@   props C29
+//@   opt absindex yes
 //@   requires r.base != nil && replacements != nil && html != nil
 //@   requires 0 <= lineStart && lineStart+len(line) <= len(src)
 //@   requires forall(0, len(*replacements), func(k int) bool { return specReplOK((*replacements)[k], len(src)) })
@@ -218,6 +219,7 @@ func specReplOK(r replacement, n int) bool { return 0 <= r.start && r.start < r.
 
 //@ func linkDestinationReplacer.collectReplacements
 //@   props C29
+//@   opt absindex yes
 //@   requires r.base != nil
 //@   ensures forall(0, len(result), func(k int) bool { return specReplOK(result[k], len(src)) })
 //@   loop 0
